@@ -8,7 +8,7 @@ sub-object visits, stores and cursor flow are compared with the oracle of C11 6.
 from ..interp import Interp, Obj, Sym, Term, Lin, View, Cell, is_opaque, vkey, _Ref, int_type, FieldPlace
 from ..chibi import Catalogue, type_cell, cat_of, INT_CATS
 from ..build import AnalysisBroken
-from ..lib_c05 import (TInterp, ctype_bits, settle, lin_eq, lin_diff, lsum, lscale, field, is_null, strip_cast, show,
+from ..lib_c05 import (TInterp, NullInterp, ctype_bits, settle, lin_eq, lin_diff, lsum, lscale, field, is_null, strip_cast, show,
                        children_hook, child_index, show_key, eq_on_path)
 
 U = 'parse.c'
@@ -51,7 +51,7 @@ class BackEnd:
         self.P, self.u, self.E, self.fname = P, u, E, fname
         self.static = fname == 'write_gvar_data'
 
-    def interp(self, extra_models=None, loop_limit=2):
+    def interp(self, extra_models=None, loop_limit=2, cls=None):
         be = self
 
         def h_rec(it, ctx, n, args):
@@ -76,11 +76,18 @@ class BackEnd:
             ctx.emit('call', 'eval2', args, n.line, v, lab)
             return v
         models = {'eval2': m_eval2}
+        if 'eval_truth' in be.u.functions:
+            # a helper that folds an expression to its truth value: judged on its own (r052_truth_helper), opaque here
+            def m_eval_truth(it, ctx, n, args):
+                v = Sym(ctx.fresh('eval_truth'), 'bool')
+                ctx.emit('call', 'eval_truth', args, n.line, v)
+                return v
+            models['eval_truth'] = m_eval_truth
         models.update(extra_models or {})
         cfg = {'cut': {be.fname: h_rec}, 'models': models,
                'opaque': ['eval', 'eval_double', 'new_add', 'add_type', 'new_cast'], 'loop_limit': loop_limit,
                'track_stores': True, 'lazy_field': children_hook()}
-        return TInterp(self.P, self.u, cfg)
+        return (cls or TInterp)(self.P, self.u, cfg)
 
     def args(self, ty, init_expr=None):
         be = self
@@ -183,6 +190,50 @@ def members_walk(it, ty):
         v = field(v, 'next')
         if len(out) > 8:
             return out, False
+
+
+def unnamed_bf(m):
+    """does member m take part in initialization? C11 6.7.9p9: unnamed members (= unnamed bit-fields; an anonymous struct/union member is not
+    a bit-field) do not.  True: known unnamed bit-field on this path; False: known to take part (named, or not a bit-field); None: the path never looked"""
+    bf, nm = field(m, 'is_bitfield'), field(m, 'name')
+    if isinstance(bf, int) and bf == 0:
+        return False
+    if isinstance(nm, Obj):
+        return False
+    if isinstance(bf, int) and bf == 1 and is_null(nm):
+        return True
+    return None
+
+
+def first_part(m):
+    """the first member at or behind m that is not known to be an unnamed bit-field on this path (Obj), 0 when the list provably ends before, else None"""
+    n = 0
+    while isinstance(m, Obj) and unnamed_bf(m) is True and n < 8:
+        m = field(m, 'next'); n += 1
+    if isinstance(m, Obj) or is_null(m):
+        return m
+    return None
+
+
+def member_chain(m):
+    out = []
+    while isinstance(m, Obj) and len(out) < 8:
+        out.append(m)
+        m = field(m, 'next')
+    return out
+
+
+def member_of_child(k, starts):
+    """the Member (reachable from one of `starts` through ->next) whose idx names init->children[k]"""
+    for st in starts:
+        for m in member_chain(st):
+            if 'idx' in m.fields and vkey(m.fields['idx']) == k:
+                return m
+    return None
+
+
+P9 = ('C11 6.7.9p9: unnamed members of a struct/union (unnamed bit-fields such as `int :3;`) do not take part in initialization; '
+      'with `struct { int a; int :3; int b; } s = {1, 2};` the 2 belongs to b')
 
 
 def describe_member(it, init, m):
@@ -531,8 +582,31 @@ def r054_path(be, it, ctx, mems, rep):
             old = f['old']
             okold = isinstance(old, Term) and old.op == 'load' and isinstance(old.args[0], Term) and old.args[0].op == 'mem' and lin_eq(old.args[0].args[0], s[1].args[0])
             ev = [e for e in ctx.events if e[0] == 'call' and e[1] in ('eval', 'eval2') and e[4] is f['new']]
+            # a bit-field of type _Bool holds the CONVERTED value (1 iff the initializer compares unequal to 0), not its low bit
+            mty = settle(it, field(m, 'ty'))
+            mk = settle(it, mty.fields.get('kind')) if isinstance(mty, Obj) and 'kind' in mty.fields else None
+            TB = be.E.get('TY_BOOL')
+            if mk is None:
+                may_bool, is_bool = True, False
+            elif isinstance(mk, View):
+                cs = [mk.proj(c) for c in mk.cell.cands]
+                may_bool, is_bool = TB in cs, cs == [TB]
+            else:
+                may_bool = is_bool = (mk == TB)
+            ch = field(init, 'children')
+            el = None
+            if isinstance(ch, Obj) and 'idx' in m.fields:
+                k_ = vkey(m.fields['idx'])
+                el = ch if k_ == 0 else ch.meta.get(('elem', k_))
+            ex = settle(it, field(el, 'expr')) if isinstance(el, Obj) else None
+            bj = _bool_value(it, be.E, ctx, f['new'], ex) if (may_bool and TB is not None and isinstance(ex, Obj)) else None
             if not okold:
                 ok = False; msg = 'the bit-field merge does not start from the bytes already in the storage unit (neighbouring bit-fields are lost)'; construct = 'merge-old-value'
+            elif bj is not None and bj[0] is False:
+                ok = False; construct = 'merge-new-value/' + bj[1]
+                msg = 'static bit-field of type _Bool (`struct { _Bool f:1; } s = {2};` stores 0, gcc and the automatic back end give 1): ' + bj[2]
+            elif bj is not None and bj[0] is True and is_bool:
+                pass
             elif not ev:
                 ok = False; msg = 'the merged value is not the evaluated initializer expression'; construct = 'merge-new-value'
             elif (f['form'] == 'shift' and f['w'] is not m.fields.get('bit_width')) or f['o'] is not m.fields.get('bit_offset'):
@@ -563,6 +637,102 @@ def r054_path(be, it, ctx, mems, rep):
                     rep.ob('R05.4', '%s:write_gvar_data:merge-arithmetic-64-bit(%s)' % (U, e[1]), bits == 64,
                            'the bit-field merge computes `%s` in the %s-bit type `%s`: bit-fields of width >= %d (or ending above bit %d) are truncated' % (e[1], bits, e[2], (bits or 32) - 1, (bits or 32) - 1),
                            where='%s:%d' % (U, e[3]))
+
+
+def _store_place(s):
+    """(address, C type of the lvalue) of a ('store', place, value, line) event through an opaque pointer, else None"""
+    p = s[1]
+    if isinstance(p, Term) and p.op == 'mem':
+        return p.args[0], p.args[1]
+    if isinstance(p, Term) and p.op == 'elem':
+        base, idx, ct = p.args
+        bits = ctype_bits(ct)
+        if bits and bits % 8 == 0:
+            a = lsum(base, lscale(idx, bits // 8))
+            if a is not None:
+                return a, ct
+    return None
+
+
+def _truth_base(v):
+    """X if v is a truth value of X ((X != 0), !!X, nested), else None"""
+    got = None
+    while True:
+        v, _ = strip_cast(v)
+        if isinstance(v, Term) and v.op.split(':')[0] == '!=' and len(v.args) == 2:
+            a, b = v.args
+            if isinstance(b, (int, float)) and not isinstance(b, bool) and b == 0:
+                got = v = a; continue
+            if isinstance(a, (int, float)) and not isinstance(a, bool) and a == 0:
+                got = v = b; continue
+        if isinstance(v, Term) and v.op == '!' and isinstance(v.args[0], Term) and v.args[0].op == '!':
+            got = v = v.args[0].args[0]; continue
+        return got
+
+
+def _float_kinds(E):
+    return set(E[k] for k in ('TY_FLOAT', 'TY_DOUBLE', 'TY_LDOUBLE') if k in E)
+
+
+def _may_be_floating(it, E, e):
+    """may the type of expression node e be a floating type on this path (as far as the path looked at it)?"""
+    e = settle(it, e)
+    ty = e.fields.get('ty') if isinstance(e, Obj) else None
+    ty = settle(it, ty)
+    if isinstance(ty, View):
+        return True
+    k = ty.fields.get('kind') if isinstance(ty, Obj) else None
+    if k is None:
+        return True
+    k = settle(it, k)
+    if isinstance(k, View):
+        return any(k.proj(c) in _float_kinds(E) for c in k.cell.cands)
+    return k in _float_kinds(E)
+
+
+def _bool_value(it, E, ctx, val, e, root_ty=None):
+    """judge the value stored for an object of type _Bool initialised by expression node e (C11 6.3.1.2: 1 iff the value compares unequal to 0).
+    returns (ok, construct, message) ; ok None = shape not recognised"""
+    calls = [ev for ev in ctx.events if ev[0] == 'call' and ev[1] in ('eval', 'eval2', 'eval_double', 'eval_truth')]
+
+    def src_of(x):
+        for ev in calls:
+            if ev[4] is x:
+                return ev
+        return None
+
+    def arg_is_expr(ev):
+        for a in ev[2]:
+            a = settle(it, a)
+            if a is e:
+                return 'expr'
+            for c in ctx.events:
+                # the conversion delegated to the ND_CAST arm of the evaluator: eval(new_cast(init->expr, ty))
+                if c[0] == 'call' and c[1] == 'new_cast' and c[4] is a and len(c[2]) >= 2 and settle(it, c[2][0]) is e:
+                    return 'cast'
+        return None
+    raw, _ = strip_cast(val)
+    ev = src_of(raw)
+    if ev is not None:
+        how = arg_is_expr(ev)
+        if how == 'cast' or (how == 'expr' and ev[1] == 'eval_truth'):
+            return True, 'converted', ''
+        if how == 'expr':
+            return (False, 'bool-not-converted',
+                    'the value of the initializer is stored into a _Bool object as its low byte / its low bits instead of being converted (C11 6.3.1.2: 1 if it compares unequal to 0): '
+                    '`static _Bool b = 256;` stores 0, `static _Bool b = 2;` stores 2, `= 0.5` stores 0, while the same initializer of an automatic object gives 1')
+        return None, '', ''
+    base = _truth_base(val)
+    if base is None:
+        return None, '', ''
+    ev = src_of(base)
+    if ev is None or arg_is_expr(ev) is None:
+        return None, '', ''
+    if ev[1] in ('eval', 'eval2') and arg_is_expr(ev) == 'expr' and _may_be_floating(it, E, e):
+        return (False, 'bool-from-truncated-floating-value',
+                'the truth value stored into a _Bool object is computed from the initializer folded as an INTEGER although the expression may be floating: 0.5 is truncated to 0 first '
+                '(`static _Bool b = 0.5;` must be 1)')
+    return True, 'converted', ''
 
 
 def _contains(v, t):
@@ -612,17 +782,24 @@ def r052_scalars(P, u, E, cat, rep):
                 rep.undecided('R05.2', key, 'the scalar arm writes through %s(): not interpretable as a typed store' % '/'.join(ext), where=where)
                 done[name] = True
                 continue
-            if len(stores) != 1 or not (isinstance(stores[0][1], Term) and stores[0][1].op == 'mem'):
+            if len(stores) != 1 or _store_place(stores[0]) is None:
                 ok = False; construct = 'store-count'; msg = 'a scalar of type class `%s` leads to %d stores into the image (expected exactly one)' % (name, len(stores))
             else:
                 s = stores[0]
-                addr, ct = s[1].args
+                addr, ct = _store_place(s)
                 val, cast_t = strip_cast(s[2])
+                bj = _bool_value(it, E, ctx, s[2], e) if name == 'bool' else None
                 if not lin_eq(addr, lsum(ctx.p_buf, ctx.p_off)):
                     ok = False; construct = 'store-address'; msg = 'the value of a `%s` is stored at %s, not at buf + offset' % (name, show(addr))
                 elif ctype_bits(ct) != 8 * size:
                     ok = False; construct = 'store-width'
                     msg = 'a `%s` (size %d) is stored through an lvalue of type `%s` (%s bits): %s' % (name, size, ct, ctype_bits(ct), 'neighbouring bytes are overwritten' if (ctype_bits(ct) or 0) > 8 * size else 'the upper bytes keep the zero fill')
+                elif bj is not None and bj[0] is None:
+                    rep.undecided('R05.2', key + ':bool-conversion', 'the value stored for a _Bool (%s) is not recognised as the raw or the converted initializer value' % show(s[2]), where=where)
+                    done[name] = True
+                    continue
+                elif bj is not None:
+                    ok, construct, msg = bj[0], ('stored' if bj[0] else bj[1]), bj[2]
                 else:
                     src = [ev for ev in ctx.events if ev[0] == 'call' and ev[4] is val]
                     isf = name in FLOATS
@@ -652,6 +829,32 @@ def r052_scalars(P, u, E, cat, rep):
         ok = out[0] == 'ret' and not stores and settle(it2, out[1]) is ctx.p_cur
         rep.ob('R05.2', '%s:write_gvar_data:scalar-without-initializer-keeps-zero' % U, ok,
                'a scalar sub-object without initializer is not left as zero fill (outcome %s, %d stores)' % (out[0], len(stores)), where=_w(u, 'write_gvar_data'))
+
+
+def r052_truth_helper(P, u, E, rep):
+    """eval_truth (used by the static back end to convert an initializer to _Bool): 1 iff the folded value compares unequal to 0, a floating
+    expression folded as a floating value"""
+    fn = 'eval_truth'
+    if fn not in u.functions:
+        return
+    it = TInterp(P, u, {'opaque': ['eval', 'eval2', 'eval_double', 'add_type'], 'track_stores': True})
+
+    def mk(ctx):
+        ctx.node = Obj('Node', lazy=True, label='node')
+        return [ctx.node]
+    n = 0
+    for ctx, out in it.explore(fn, mk):
+        if out[0] != 'ret':
+            continue
+        n += 1
+        bj = _bool_value(it, E, ctx, Term('!=', out[1], 0), ctx.node)
+        key = '%s:%s:truth-of-the-folded-value' % (U, fn)
+        if bj[0] is None:
+            rep.undecided('R05.2', key, 'the value returned by eval_truth (%s) is not recognised as a truth value of the folded expression' % show(out[1]), where=_w(u, fn))
+        else:
+            rep.ob('R05.2', key if bj[0] else key + '/' + bj[1], bj[0], 'eval_truth (conversion of a constant initializer to _Bool): ' + bj[2], where=_w(u, fn), facts={'path': ctx.trail})
+    if n == 0:
+        rep.undecided('R05.2', '%s:%s' % (U, fn), 'no returning path')
 
 
 def r057_reloc(be, it, ctx, out, call, stores, rep):
@@ -707,6 +910,8 @@ def run(P, rep, tier):
     rep.rule('R05.2', 'the static back end stores every scalar type class with its own width and representation (or nothing when there is no initializer)', floor=14)
     rep.rule('R05.4', 'static bit-field merge is old | ((new & ((1 << width) - 1)) << offset), computed in 64 bits, read and written with the width of the storage unit', floor=4)
     rep.rule('R05.7', 'address constants: the relocation cursor is threaded through every recursive call and returned; a label+addend becomes a relocation at the element offset; eval2/eval_rval add member offsets', floor=13)
+    rep.rule('R05.13', 'members that do not take part in initialization (unnamed bit-fields, C11 6.7.9p9) never receive a positional initializer: the member cursor of '
+             'struct_initializer1, struct_initializer2 and the default member of union_initializer pass over them', floor=3)
     copies = r051_copy(P, u, E, rep)
     bs = BackEnd(P, u, E, 'write_gvar_data')
     bl = BackEnd(P, u, E, 'create_lvar_init')
@@ -719,6 +924,7 @@ def run(P, rep, tier):
             r051_struct_expr(be, rep, 'TY_UNION', 'union')
         r051_union(be, rep)
     r052_scalars(P, u, E, cat, rep)
+    r052_truth_helper(P, u, E, rep)
     r052_lvar(P, u, E, cat, rep)
     r057_addr(P, u, E, cat, rep)
     r058(P, u, E, rep)
@@ -729,6 +935,8 @@ def run(P, rep, tier):
     r0510(P, u, E, rep, copies)
     r0511(P, u, E, cat, rep)
     r0512(P, u, E, rep)
+    r0514(P, u, E, rep)
+    r0515(P, u, E, rep)
 
 
 # ------------------------------------------------------------------------------------------------
@@ -741,6 +949,9 @@ ADDR_SPEC = {
         'ND_LABEL_VAL': ([], False, ('node', 'unique_label')),
         'ND_MEMBER': ([('eval_rval', 'lhs', True, 1)], True, None),
         'ND_VAR': ([], False, ('var', 'name')),
+        # every lvalue kind of eval_rval can have array type; as a value it is the address of its first element (C11 6.3.2.1p3):
+        # `a[1]` of `int a[3][4]` (ND_DEREF of array type) in `&a[1][2]` / `int *q = a[1];`
+        'ND_DEREF': ([('eval2', 'lhs', True, 1)], False, None),
         'ND_ADD': ([('eval2', 'lhs', True, 1), ('eval2', 'rhs', False, 1)], False, None),
         'ND_SUB': ([('eval2', 'lhs', True, 1), ('eval2', 'rhs', False, -1)], False, None),
         'ND_COMMA': ([('eval2', 'rhs', True, 1)], False, None),
@@ -754,6 +965,7 @@ ADDR_SPEC = {
 }
 WHAT = {'ND_ADDR': '&lvalue', 'ND_LABEL_VAL': '&&label', 'ND_MEMBER': 'an array member (decays to its address)', 'ND_VAR': 'an array/function designator',
         'ND_ADD': 'address + n', 'ND_SUB': 'address - n', 'ND_COMMA': '(x, address)', 'ND_CAST': '(T)address', 'ND_DEREF': '*pointer as lvalue'}
+WHAT2 = {'ND_DEREF': 'an element lvalue of array type, e.g. a[1] of a two-dimensional array (decays to its address: `&a[1][2]`, `int *q = a[1];`)'}
 
 
 class _Slot:
@@ -802,7 +1014,7 @@ def _addr_arm(P, u, E, cat, rep, fn, kind, terms, plus, labsrc):
     res = it.explore(fn, mk)
     key = '%s:%s:%s' % (U, fn, kind)
     where = _w(u, fn)
-    nret = 0
+    nret = nrej = 0
     for ctx, out in res:
         node = ctx.node
         if out[0] != 'ret':
@@ -811,15 +1023,18 @@ def _addr_arm(P, u, E, cat, rep, fn, kind, terms, plus, labsrc):
             vty = cat_of(node.fields['var'].fields['ty'])
             loc = field(node.fields['var'], 'is_local')
             valid = True
-            if kind == 'ND_MEMBER' and fn == 'eval2' and nty != ['array']:
+            if kind == 'ND_MEMBER' and fn == 'eval2' and 'array' not in nty:
                 valid = False        # a non-array member is not an address
+            if kind == 'ND_DEREF' and fn == 'eval2' and 'array' not in nty:
+                valid = False        # *p of non-array type is a load, not an address
             if kind == 'ND_VAR' and fn == 'eval2' and not set(vty) <= {'array', 'func'}:
                 valid = False
             if kind == 'ND_VAR' and fn == 'eval_rval' and loc != 0:
                 valid = False        # address of a local is not constant
             if valid:
+                nrej += 1
                 rep.ob('R05.7', key + '/rejected', False,
-                       '%s rejects %s (%s) with %s(%s) although it is an address constant' % (fn, kind, WHAT[kind], out[1], show(out[2][1]) if len(out[2]) > 1 else ''),
+                       '%s rejects %s (%s) with %s(%s) although it is an address constant' % (fn, kind, (WHAT2 if fn == 'eval2' else {}).get(kind, WHAT[kind]), out[1], show(out[2][1]) if len(out[2]) > 1 else ''),
                        where='%s:%d' % (U, out[3]), facts={'path': ctx.trail})
             continue
         if kind == 'ND_VAR' and fn == 'eval_rval' and field(node.fields['var'], 'is_local') != 0:
@@ -830,6 +1045,9 @@ def _addr_arm(P, u, E, cat, rep, fn, kind, terms, plus, labsrc):
             continue
         if kind == 'ND_MEMBER' and fn == 'eval2' and cat_of(node.fields['ty']) != ['array']:
             rep.ob('R05.7', key + '/non-address-accepted', False, 'eval2 accepts the VALUE of a non-array member as an address constant', where=where, facts={'path': ctx.trail})
+            continue
+        if kind == 'ND_DEREF' and fn == 'eval2' and cat_of(node.fields['ty']) != ['array']:
+            rep.ob('R05.7', key + '/non-address-accepted', False, 'eval2 accepts the VALUE of a dereferenced pointer (a load from memory) as a constant', where=where, facts={'path': ctx.trail})
             continue
         nret += 1
         recs = [e for e in ctx.events if e[0] == 'rec']
@@ -873,7 +1091,7 @@ def _addr_arm(P, u, E, cat, rep, fn, kind, terms, plus, labsrc):
                 if not good:
                     ok = False; construct = 'label'; msg = '%s of %s does not set *label to the address of %s->%s' % (fn, kind, labsrc[0], labsrc[1])
         rep.ob('R05.7', key + '/' + construct, ok, msg, where=where, facts={'path': ctx.trail})
-    if nret == 0:
+    if nret == 0 and nrej == 0:
         rep.undecided('R05.7', key, '%s has no accepting path for %s' % (fn, kind))
 
 
@@ -930,13 +1148,30 @@ def _cursor_models(equal_is=None):
             'const_expr': m_const_expr, 'equal': m_equal}
 
 
-def _cursor_interp(P, u, equal_is=None, drop=()):
+def short_lists_hook(depth=2):
+    """children_hook + member lists of at most `depth` further members behind any member the analysis starts from (keeps loops that pass over
+    members from multiplying the paths of the enclosing walk; the facts judged are per-member facts)"""
+    base = children_hook()
+
+    def hook(it, ctx, o, f, t):
+        if o.tname == 'Member' and f == 'next':
+            d = o.meta.get('depth', 0)
+            if d >= depth:
+                return 0
+            nx = Obj('Member', lazy=True, label=(o.label or 'mem') + '.next')
+            nx.meta['depth'] = d + 1
+            return View(Cell([0, nx], nx.label, names={0: 'NULL'}))
+        return base(it, ctx, o, f, t)
+    return hook
+
+
+def _cursor_interp(P, u, equal_is=None, drop=(), short_lists=False, cls=None):
     models = _cursor_models(equal_is)
     for d in drop:
         models.pop(d, None)
-    return TInterp(P, u, {'models': models, 'opaque': ['skip', 'consume_end', 'consume', 'is_end', 'count_array_init_elements', 'new_initializer', 'array_of',
+    return (cls or TInterp)(P, u, {'models': models, 'opaque': ['skip', 'consume_end', 'consume', 'is_end', 'count_array_init_elements', 'new_initializer', 'array_of',
                                                         'skip_excess_element', 'error_tok'],
-                          'loop_limit': 2, 'lazy_field': children_hook(), 'track_stores': True})
+                          'loop_limit': 2, 'lazy_field': short_lists_hook() if short_lists else children_hook(), 'track_stores': True})
 
 
 def _mk_init(kind_val):
@@ -1124,31 +1359,412 @@ def r058(P, u, E, rep):
     if n_s == 0:
         rep.undecided('R05.8', '%s:%s' % (U, fn), 'struct-designator branch of designation not recognised')
     fn = 'struct_initializer1'
-    it = _cursor_interp(P, u)
-    n_after = n_first = 0
+    it = _cursor_interp(P, u, short_lists=True)
+    n_after = n_first = n_part = 0
     for ctx, out in it.explore(fn, _mk_init(E['TY_STRUCT'])):
         if out[0] != 'ret':
             continue
         cur = ('first',)
+        m0 = field(field(ctx.root_init, 'ty'), 'members')
+        starts = [m0] + [e[1] for e in ctx.events if e[0] == 'sdesig']
         for e in ctx.events:
             if e[0] == 'sdesig':
                 cur = ('after', e[1])
             elif e[0] == 'sub' and e[1] == 'initializer2':
                 k = _child_key(ctx, e[2][2], it)
+                # members that do not take part in initialization (unnamed bit-fields, C11 6.7.9p9) are passed over: R05.13
                 if cur[0] == 'first':
-                    m0 = field(field(ctx.root_init, 'ty'), 'members')
-                    good = isinstance(m0, Obj) and 'idx' in m0.fields and k == vkey(m0.fields['idx'])
+                    fm = first_part(m0)
+                    good = isinstance(fm, Obj) and 'idx' in fm.fields and k == vkey(fm.fields['idx'])
                     n_first += 1
-                    rep.ob('R05.8', '%s:%s:first-positional-is-first-member' % (U, fn), good, 'the first initializer of a braced struct initializer does not go to the first member', where='%s:%d' % (U, e[3]))
+                    rep.ob('R05.8', '%s:%s:first-positional-is-first-member' % (U, fn), good, 'the first initializer of a braced struct initializer does not go to the first (named) member', where='%s:%d' % (U, e[3]),
+                           facts={'path': ctx.trail})
                 elif cur[0] == 'after':
-                    nx = field(cur[1], 'next')
+                    nx = first_part(field(cur[1], 'next'))
                     good = isinstance(nx, Obj) and 'idx' in nx.fields and k == vkey(nx.fields['idx'])
                     n_after += 1
                     rep.ob('R05.8', '%s:%s:resume-after-member-designator' % (U, fn), good,
-                           'after `.m = v` the next initializer without designator does not go to the member that follows m', where='%s:%d' % (U, e[3]), facts={'path': ctx.trail})
-                cur = ('other',)
-    if n_after == 0 or n_first == 0:
+                           'after `.m = v` the next initializer without designator does not go to the (named) member that follows m', where='%s:%d' % (U, e[3]), facts={'path': ctx.trail})
+                elif cur[0] == 'pos':
+                    nx = first_part(field(cur[1], 'next'))
+                    good = isinstance(nx, Obj) and 'idx' in nx.fields and k == vkey(nx.fields['idx'])
+                    rep.ob('R05.8', '%s:%s:positional-members-consecutive' % (U, fn), good,
+                           'two consecutive initializers without designator do not go to consecutive (named) members', where='%s:%d' % (U, e[3]), facts={'path': ctx.trail})
+                mm = member_of_child(k, starts)
+                cur = ('pos', mm) if mm is not None else ('other',)
+                if mm is not None:
+                    n_part += 1
+                    _r0513_ob(rep, fn, 'positional-initializer', mm, ctx, e[3])
+    if n_after == 0 or n_first == 0 or n_part == 0:
         rep.undecided('R05.8', '%s:%s' % (U, fn), 'cursor walk not recognised')
+    _r0513_rest(P, u, E, rep)
+
+
+# ------------------------------------------------------------------------------------------------
+# R05.13 members that do not take part in initialization (unnamed bit-fields, C11 6.7.9p9) never receive a positional initializer
+# ------------------------------------------------------------------------------------------------
+def _r0513_ob(rep, fn, what, m, ctx, line):
+    st = unnamed_bf(m)
+    rep.ob('R05.13', '%s:%s:%s/unnamed-bit-field-%s' % (U, fn, what, 'passed-over' if st is False else ('receives-it' if st else 'not-passed-over')), st is False,
+           '%s hands a %s to a member without establishing that the member takes part in initialization (it is named, or not a bit-field): an unnamed bit-field consumes the '
+           'value and every later value lands one member too early. %s' % (fn, what.replace('-', ' '), P9), where='%s:%d' % (U, line), facts={'path': ctx.trail})
+
+
+def _r0513_rest(P, u, E, rep):
+    """struct_initializer2 (brace-elided / continued member walk) and the default member of a union"""
+    fn = 'struct_initializer2'
+    it = _cursor_interp(P, u, short_lists=True)
+
+    def mk_s2(ctx):
+        a = _mk_init(E['TY_STRUCT'])(ctx)
+        ctx.start_mem = Obj('Member', lazy=True, label='mem')
+        return a + [ctx.start_mem]
+    n = 0
+    for ctx, out in it.explore(fn, mk_s2):
+        if out[0] != 'ret':
+            continue
+        prev = None
+        for e in ctx.events:
+            if not (e[0] == 'sub' and e[1] == 'initializer2'):
+                continue
+            k = _child_key(ctx, e[2][2], it)
+            want = first_part(ctx.start_mem if prev is None else field(prev, 'next'))
+            good = isinstance(want, Obj) and 'idx' in want.fields and k == vkey(want.fields['idx'])
+            rep.ob('R05.8', '%s:%s:%s' % (U, fn, 'starts-at-the-given-member' if prev is None else 'positional-members-consecutive'), good,
+                   'the member walk without braces (`struct S a[2] = {1, 2, 3, 4}`, or the continuation behind `.m = v`) %s' %
+                   ('does not start with the (first named) member it is given' if prev is None else 'does not hand consecutive initializers to consecutive (named) members'),
+                   where='%s:%d' % (U, e[3]), facts={'path': ctx.trail})
+            mm = member_of_child(k, [ctx.start_mem])
+            if mm is None:
+                break
+            n += 1
+            _r0513_ob(rep, fn, 'positional-initializer', mm, ctx, e[3])
+            prev = mm
+    if n == 0:
+        rep.undecided('R05.13', '%s:%s' % (U, fn), 'member walk not recognised (no path hands an initializer to a member)')
+    # ---- union: the member initialised by default is the first one that takes part
+    fn = 'union_initializer'
+    it = _cursor_interp(P, u, drop=('designation',))
+    it.cut['designation'] = lambda it_, ctx, n_, a: (_set_rest(it_, ctx, a[0], 'tok-after-designation'), ctx.emit('sub', 'designation', a, n_.line), None)[2]
+
+    def mk_u(ctx):
+        a = _mk_init(E['TY_UNION'])(ctx)
+        ctx.m0 = Obj('Member', lazy=True, label='init.ty.members')
+        ctx.root_init.fields['ty'].fields['members'] = ctx.m0
+        return a
+    n = 0
+    for ctx, out in it.explore(fn, mk_u):
+        if out[0] != 'ret' or any(e[0] == 'sdesig' for e in ctx.events):
+            continue
+        subs = [e for e in ctx.events if e[0] == 'sub' and e[1] == 'initializer2']
+        if len(subs) != 1:
+            continue
+        k = _child_key(ctx, subs[0][2][2], it)
+        sel = settle(it, ctx.root_init.fields.get('mem'))
+        fm = first_part(ctx.m0)
+        if is_null(fm):
+            continue          # no member takes part at all (only unnamed bit-fields): nothing to judge
+        n += 1
+        good = isinstance(fm, Obj) and sel is fm and ((k == 0 and fm is ctx.m0) or ('idx' in fm.fields and k == vkey(fm.fields['idx'])))
+        rep.ob('R05.8', '%s:%s:default-member-is-first-member' % (U, fn), good,
+               'a union initializer without designator does not select and initialise the first (named) member of the union', where='%s:%d' % (U, subs[0][3]), facts={'path': ctx.trail})
+        if good:
+            _r0513_ob(rep, fn, 'default-initializer', fm, ctx, subs[0][3])
+    if n == 0:
+        rep.undecided('R05.13', '%s:%s' % (U, fn), 'default-member path of union_initializer not recognised')
+
+
+# ------------------------------------------------------------------------------------------------
+# R05.14 separator protocol of the initializer-list walk.  Every token the walk stands on is either the START of an element (a designator,
+# `{`, or an expression: state E) or the SEPARATOR behind an element (`,` or the closing `}`: state A).  The element parsers (initializer2,
+# designation, assign, skip_excess_element, string_initializer) and the designator parsers are entered at E and leave at A; skip(tok, ",")
+# is applied at A and leaves at E.  The functions that continue a walk without braces (array_initializer2, struct_initializer2) are entered
+# at E by initializer2 (brace elision) and at A by designation (continuation behind a designated sub-object); they are interpreted INLINED
+# in their callers, so the very arguments the caller passes decide which case they see.
+# ------------------------------------------------------------------------------------------------
+_TK_AFTER = {',': 'E', '{': 'E', '=': 'E', ']': 'E', '}': 'A'}
+
+
+def tk_state(T):
+    if not isinstance(T, Obj):
+        return None
+    st = T.meta.get('st')
+    if st:
+        return st
+    p = T.meta.get('prev')
+    if isinstance(p, Obj):
+        return _TK_AFTER.get(p.meta.get('is'))
+    return None
+
+
+def _tk_new(ctx, what, st):
+    t = Obj('Token', lazy=True, label=ctx.fresh(what))
+    t.meta['st'] = st
+    return t
+
+
+def _tk_hook(base):
+    def hook(it, ctx, o, f, t):
+        if o.tname == 'Token' and f == 'next':
+            nx = Obj('Token', lazy=True, label=(o.label or 'tok') + '.next')
+            nx.meta['prev'] = o
+            return nx
+        return base(it, ctx, o, f, t)
+    return hook
+
+
+def _tk_obj(it, v):
+    v = settle(it, v)
+    if isinstance(v, View):
+        objs = [c for c in v.cell.cands if isinstance(v.proj(c), Obj)]
+        if len(objs) == 1:
+            it.refine(v.cell, objs)
+            v = settle(it, v)
+    return v if isinstance(v, Obj) else None
+
+
+def _tk_fn(n):
+    f = n.enclosing('FunctionDecl')
+    return f.name if f is not None else '?'
+
+
+def _sep_interp(P, u, E):
+    from ..interp import Infeasible, NoReturn
+
+    def m_equal(it, ctx, n, a):
+        T = _tk_obj(it, a[0]) if a else None
+        s = a[1] if len(a) > 1 else None
+        if T is None or not isinstance(s, str):
+            return View(Cell([0, 1], ctx.fresh('equal(?,%r)' % (s,))))
+        known, nots = T.meta.get('is'), T.meta.setdefault('not', set())
+        if known is not None:
+            return 1 if known == s else 0
+        if s in nots:
+            return 0
+        st = tk_state(T)
+        if st == 'A':
+            # behind an element of a valid initializer list stands `,` or `}`
+            if s not in (',', '}'):
+                return 0
+            if ({',', '}'} - {s}) <= nots:
+                T.meta['is'] = s
+                return 1
+        if st == 'E' and s == ',':
+            return 0
+        i = ctx.choose(2, 'equal(%s, %r)' % (T.label, s))
+        if i == 0:
+            T.meta['is'] = s
+            ctx.note('%s is %r' % (T.label, s))
+            return 1
+        nots.add(s)
+        ctx.note('%s is not %r' % (T.label, s))
+        return 0
+
+    def m_skip(it, ctx, n, a):
+        T = _tk_obj(it, a[0]) if a else None
+        s = a[1] if len(a) > 1 else None
+        if T is None or not isinstance(s, str):
+            raise AnalysisBroken('skip() is no longer called with (token, "punctuator")')
+        st = tk_state(T)
+        known, nots = T.meta.get('is'), T.meta.setdefault('not', set())
+        if s == ',':
+            ctx.emit('proto', 'skip-comma', st, _tk_fn(n), n.line, known)
+            if st == 'E':
+                raise Infeasible('a valid program is rejected here (reported)')
+        if (known is not None and known != s) or s in nots:
+            raise NoReturn('error_tok', [T, "expected '%s'" % s], n.line)
+        T.meta['is'] = s
+        return it.read_field(T, 'next')
+
+    def elem_parser(name, rest_at=0, tok_at=1, ret=None):
+        def f(it, ctx, n, a):
+            T = _tk_obj(it, a[tok_at]) if len(a) > tok_at else None
+            ctx.emit('proto', 'element', tk_state(T), _tk_fn(n), n.line, name)
+            R = _tk_new(ctx, 'tok-after-' + name, 'A')
+            if rest_at is not None and len(a) > rest_at and isinstance(a[rest_at], _Ref):
+                a[rest_at].place.set(it, R)
+            ctx.emit('sub', name, a, n.line)
+            return ret(it, ctx, R) if ret else None
+        return f
+
+    def m_assign_ret(it, ctx, R):
+        node = Obj('Node', lazy=True, label=ctx.fresh('assign-expr'))
+        ty0 = field(getattr(ctx, 'root_init', None), 'ty')
+        if isinstance(ty0, Obj):
+            node.fields['ty'] = View(Cell([ty0, Obj('Type', lazy=True, label=ctx.fresh('type-of-assign-expr'))], ctx.fresh('assign-expr.ty')))
+        return node
+
+    def m_array_designator(it, ctx, n, a):
+        if len(a) < 5 or not isinstance(a[3], _Ref) or not isinstance(a[4], _Ref):
+            raise AnalysisBroken('array_designator is no longer called with (&rest, tok, ty, &begin, &end)')
+        b, e = Sym(ctx.fresh('begin'), 'int'), Sym(ctx.fresh('end'), 'int')
+        a[3].place.set(it, b); a[4].place.set(it, e)
+        # post-condition of array_designator for a valid program: 0 <= begin <= end < array_len
+        ctx.facts[vkey(Term('<=', b, e))] = True
+        ctx.bounds[b.key()] = [0, 1 << 40]; ctx.bounds[e.key()] = [0, 1 << 40]
+        T = _tk_obj(it, a[1])
+        ctx.emit('proto', 'designator', tk_state(T), _tk_fn(n), n.line, 'array_designator')
+        a[0].place.set(it, _tk_new(ctx, 'tok-after-designator', 'E'))
+        ctx.emit('adesig', b, e, n.line)
+        return None
+
+    def m_struct_designator(it, ctx, n, a):
+        m = Obj('Member', lazy=True, label=ctx.fresh('designated-member'))
+        T = _tk_obj(it, a[1])
+        ctx.emit('proto', 'designator', tk_state(T), _tk_fn(n), n.line, 'struct_designator')
+        a[0].place.set(it, _tk_new(ctx, 'tok-after-designator', 'E'))
+        ctx.emit('sdesig', m, n.line)
+        return m
+
+    def m_skip_excess(it, ctx, n, a):
+        T = _tk_obj(it, a[0]) if a else None
+        ctx.emit('proto', 'element', tk_state(T), _tk_fn(n), n.line, 'skip_excess_element')
+        return _tk_new(ctx, 'tok-after-excess-element', 'A')
+    cut = {'initializer2': elem_parser('initializer2'), 'designation': elem_parser('designation')}
+    models = {'equal': m_equal, 'skip': m_skip, 'assign': elem_parser('assign', ret=m_assign_ret), 'string_initializer': elem_parser('string_initializer'),
+              'array_designator': m_array_designator, 'struct_designator': m_struct_designator, 'skip_excess_element': m_skip_excess}
+    return TInterp(P, u, {'models': models, 'cut': cut, 'opaque': ['count_array_init_elements', 'new_initializer', 'array_of', 'add_type', 'error_tok'],
+                          'loop_limit': 2, 'lazy_field': _tk_hook(short_lists_hook()), 'track_stores': True})
+
+
+def r0514(P, u, E, rep):
+    rep.rule('R05.14', 'separator protocol of the initializer-list walk: every element parser (initializer2, designation, assign, skip_excess_element) and every designator is '
+             'entered at the start of an element, `,` is skipped exactly behind an element, and a walk hands back the token behind its last element -- also when '
+             'array_initializer2 / struct_initializer2 continue behind a designated sub-object (`{ [0].a = 1, 2 }`, `{ .in.a = 1, .c = 3 }`) or walk a brace-elided sub-aggregate', floor=12)
+    _need(u, 'initializer2', 'designation', 'array_initializer2', 'struct_initializer2')
+    scal = E.get('TY_INT')
+    roots = [('initializer2', 'TY_ARRAY'), ('initializer2', 'TY_STRUCT'), ('initializer2', 'TY_UNION'), ('initializer2', None),
+             ('designation', 'TY_ARRAY'), ('designation', 'TY_STRUCT'), ('designation', 'TY_UNION')]
+    WHAT = {'element': 'an initializer element', 'designator': 'a designator'}
+    for root, kind in roots:
+        it = _sep_interp(P, u, E)
+
+        def mk(ctx, kind=kind):
+            a = _mk_init(E[kind] if kind else scal)(ctx)
+            a[1].meta['st'] = 'E'
+            ctx.entry_tok = a[1]
+            ctx.root_init.fields['expr'] = 0
+            return a
+        judged = {}
+        try:
+            res = it.explore(root, mk, max_paths=6000)
+        except AnalysisBroken as e:
+            rep.undecided('R05.14', '%s:%s:%s' % (U, root, kind or 'scalar'), 'exploration not possible: %s' % e)
+            continue
+        via = 'via-%s(%s)' % (root, (kind or 'scalar').replace('TY_', '').lower())
+        nret = 0
+        for ctx, out in res:
+            if out[0] == 'ret':
+                nret += 1
+            for e in ctx.events:
+                if e[0] != 'proto':
+                    continue
+                _, what, st, fn, line, extra = e
+                if st is None:
+                    continue
+                if what == 'skip-comma':
+                    ok = st == 'A' and extra in (None, ',')
+                    if st == 'E':
+                        construct, msg = 'comma-demanded-where-an-element-starts', ('%s demands a `,` (skip) at a token that is the START of an initializer element: the valid initializer is rejected '
+                                                                                   'with "expected \',\'"' % fn)
+                    elif not ok:
+                        construct, msg = 'comma-demanded-at-the-end-of-the-list', '%s demands a `,` at a token already known to be the closing `}`' % fn
+                    else:
+                        construct, msg = 'comma-skipped-behind-an-element', ''
+                else:
+                    ok = st == 'E'
+                    construct = '%s-entered-%s' % (extra, 'at-the-start-of-an-element' if ok else 'at-the-separator')
+                    msg = ('%s calls %s for %s while the token still stands on the separator (`,`) behind the previous element: the `,` is taken for the start of the '
+                           'element and a valid initializer such as `struct P { int a, b; } g[2] = { [0].a = 1, 2, 3 };` or `{ .in.a = 1, .c = 3 }` is rejected '
+                           '("expected an expression") -- the walk was entered behind a designated sub-object without skipping the separator' % (fn, extra, WHAT[what]))
+                key = '%s:%s:%s/%s' % (U, fn, via, construct)
+                judged[fn] = judged.get(fn, 0) + 1
+                rep.ob('R05.14', key, ok, msg, where='%s:%d' % (U, line), facts={'path': ctx.trail})
+            if out[0] != 'ret':
+                continue
+            R = _tk_obj(it, ctx.slot.v)
+            st = tk_state(R)
+            if R is None or st is None:
+                continue
+            ok = st == 'A' or R is ctx.entry_tok
+            rep.ob('R05.14', '%s:%s:%s/%s' % (U, root, via, 'hands-back-the-token-behind-its-last-element' if ok else 'hands-back-a-token-behind-the-separator'), ok,
+                   '%s (with the walks it continues inlined) hands back through *rest a token BEHIND the `,` that follows its last element: the caller, which skips that `,` itself, '
+                   'rejects the valid initializer' % root, where=_w(u, root), facts={'path': ctx.trail})
+        if nret == 0 or not judged:
+            rep.undecided('R05.14', '%s:%s:%s' % (U, root, via), 'walk not recognised (%d returning paths, %d judged calls)' % (nret, sum(judged.values())))
+
+
+# ------------------------------------------------------------------------------------------------
+# R05.15 an aggregate without members (empty struct/union, a GNU extension the type parser accepts; its Initializer has no children):
+# no function of the initializer parser or of the two back ends touches init->children[...] or dereferences a NULL member
+# ------------------------------------------------------------------------------------------------
+def r0515(P, u, E, rep):
+    rep.rule('R05.15', 'an aggregate without members (`struct E {}`, `union U {}`: init->children has length 0) is initialised without touching init->children[...] and '
+             'without dereferencing the NULL member list, by the parser (struct_initializer1/2, union_initializer) and by both back ends', floor=7)
+
+    def judge(fn, word, it, res, child_events, mode):
+        key = '%s:%s:empty-%s' % (U, fn, word)
+        if it.null_derefs:
+            ln, src, trail = it.null_derefs[0]
+            rep.ob('R05.15', key + '/null-member-dereferenced', False,
+                   '%s dereferences a NULL member pointer (`%s`) for a %s without members: `%s %s {}; %s %s x = {};` crashes the compiler'
+                   % (fn, src, word, word, 'T', word, 'T'), where='%s:%d' % (U, ln), facts={'path': trail})
+        n = 0
+        for ctx, out in res:
+            if any(e[0] == 'sdesig' for e in ctx.events):
+                continue          # a member designator into an aggregate without members: not a valid program
+            if out[0] != 'ret':
+                continue
+            n += 1
+            ch = field(ctx.root_init, 'children')
+            touched = [e for e in child_events(ctx) if child_index(ch, settle(it, e[0])) is not None]
+            rep.ob('R05.15', key + ('/children-touched' if touched else '/nothing-touched'), not touched,
+                   '%s hands init->children[...] of a %s without members to %s: the Initializer of an empty %s has no children (calloc(0)), the pointer read there is garbage and '
+                   '`%s T {}; %s T x = {};` (%s) crashes the compiler' % (fn, word, touched[0][1] if touched else '', word, word, word, mode),
+                   where='%s:%d' % (U, touched[0][2] if touched else (u.fn(fn).line if u.fn(fn) else 0)), facts={'path': ctx.trail})
+        if n == 0 and not it.null_derefs:
+            rep.undecided('R05.15', key, 'no returning path for a %s without members' % word)
+
+    def mk_empty(kind, extra=None):
+        def mk(ctx):
+            a = _mk_init(E[kind])(ctx)
+            ty = ctx.root_init.fields['ty']
+            ty.fields['members'] = 0
+            ctx.root_init.fields['mem'] = 0
+            ctx.root_init.fields['expr'] = 0
+            return a + (extra(ctx) if extra else [])
+        return mk
+
+    def subs_of(it):
+        return lambda ctx: [(e[2][2], e[1], e[3]) for e in ctx.events if e[0] == 'sub' and e[1] in ('initializer2', 'designation') and len(e[2]) > 2]
+    # ---- parser
+    for fn, kind, word, extra in (('union_initializer', 'TY_UNION', 'union', None), ('struct_initializer1', 'TY_STRUCT', 'struct', None),
+                                  ('struct_initializer2', 'TY_STRUCT', 'struct', lambda ctx: [0])):
+        if fn not in u.functions:
+            raise AnalysisBroken('anchor function %s vanished' % fn)
+        it = _cursor_interp(P, u, drop=('designation',), cls=NullInterp)
+        it.cut['designation'] = lambda it_, ctx, n_, a: (_set_rest(it_, ctx, a[0], 'tok-after-designation'), ctx.emit('sub', 'designation', a, n_.line), None)[2]
+        res = it.explore(fn, mk_empty(kind, extra))
+        judge(fn, word, it, res, subs_of(it), 'static or automatic')
+    # ---- back ends
+    for fname in ('create_lvar_init', 'write_gvar_data'):
+        be = BackEnd(P, u, E, fname)
+        for kind, word in (('TY_UNION', 'union'), ('TY_STRUCT', 'struct')):
+            it = be.interp(cls=NullInterp)
+
+            def ty_empty(ctx, kind=kind):
+                ty = Obj('Type', lazy=True, label='ty')
+                ty.fields['kind'] = E[kind]
+                ty.fields['members'] = 0
+                return ty
+
+            def mk(ctx, be=be, ty_empty=ty_empty):
+                a = be.args(ty_empty, init_expr=0)(ctx)
+                ctx.root_init.fields['mem'] = 0
+                return a
+            res = it.explore(fname, mk)
+            judge(fname, word, it, res, lambda ctx, be=be, it=it: [(v['init'], 'itself (recursive visit)', v['line']) for v in visits(be, it, ctx)],
+                  'automatic object' if fname == 'create_lvar_init' else 'static object')
 
 
 # ------------------------------------------------------------------------------------------------
@@ -1945,15 +2561,17 @@ def r051_copy(P, u, E, rep):
                     msg = 'after looking at the type of the expression, the nested initializer parse does not start again at the first token of that expression: the expression is skipped'
                 elif subs[0][1] == 'struct_initializer2':
                     first = field(init.fields['ty'], 'members')
-                    if settle(it, a[2]) is not init or len(a) < 4 or settle(it, a[3]) is not first:
+                    # (members that do not take part in initialization -- unnamed bit-fields -- may already be passed over here: R05.13)
+                    if settle(it, a[2]) is not init or len(a) < 4 or settle(it, a[3]) not in (first, first_part(first)):
                         ok = False; construct = 'not-from-first-member'; msg = 'the brace-elided member walk of the struct does not start at its first member'
                 else:
                     kk = _child_key(ctx, a[2], it)
                     first = field(init.fields['ty'], 'members')
-                    fidx = first.fields.get('idx') if isinstance(first, Obj) else None
-                    if not (kk == 0 or (fidx is not None and kk == vkey(fidx))):
-                        ok = False; construct = 'not-the-first-member'; msg = 'the expression is parsed into child %s of the union, not into the child of its first member' % show_key(kk)
-                    elif not same(it, init.fields.get('mem', 0), first):
+                    fm = first_part(first)         # the first member that takes part in initialization (R05.13); 0: there is none
+                    fidx = fm.fields.get('idx') if isinstance(fm, Obj) else None
+                    if fm is None or not ((kk == 0 and (fm is first or is_null(fm))) or (fidx is not None and kk == vkey(fidx))):
+                        ok = False; construct = 'not-the-first-member'; msg = 'the expression is parsed into child %s of the union, not into the child of its first (named) member' % show_key(kk)
+                    elif not same(it, init.fields.get('mem', 0), fm):
                         ok = False; construct = 'first-member-not-selected'; msg = 'the expression is parsed for the first member but init->mem does not select that member'
             rep.ob('R05.1', key + '/' + construct, ok, msg, where=where, facts={'path': ctx.trail})
         if n == 0 or nsame == 0:
@@ -2396,11 +3014,14 @@ def r0510(P, u, E, rep, copies=None):
         form = 'designated' if des else 'plain'
         asg = [e for e in ctx.events if e[0] == 'assign']
         ex = init.fields.get('expr')
+
         if asg and not subs and not des and settle(it, ex) is asg[-1][1]:
             # `= y` with y of the union type: the whole object is copied from the expression parsed now; both back ends test init->expr
             # before init->mem (R05.1 union-valued-initializer/used), so the member selection is irrelevant on this path
             rep.ob('R05.10', '%s:%s:union/union-valued-expression-parsed-now-is-kept' % (U, fn), True, '', where=where)
             continue
+        if first is not None and is_null(settle(it, first)) and not des:
+            continue        # a union without members (GNU extension): nothing to select; R05.15 judges that nothing is touched
         seen.add(form)
         key = '%s:%s:union/%s-initializer' % (U, fn, form)
         if union_copies and not is_null(settle(it, ex)):
@@ -2426,11 +3047,16 @@ def r0510(P, u, E, rep, copies=None):
                 elif 'idx' not in m.fields or k != vkey(m.fields['idx']):
                     ok = False; construct = 'designated-member-child-mismatch'; msg = '`.m = v` in a union does not parse v into init->children[m->idx]'
             else:
-                fobj = settle(it, first) if first is not None else None
-                if first is None or not same(it, mem, first):
+                f0 = settle(it, first) if first is not None else None
+                if isinstance(f0, View):
+                    # the member list was never tested for emptiness on this path: judge the non-empty case
+                    objs = [f0.proj(c) for c in f0.cell.cands if isinstance(f0.proj(c), Obj)]
+                    f0 = objs[0] if len(objs) == 1 else None
+                fobj = first_part(f0) if isinstance(f0, Obj) else None      # the first member that takes part in initialization (R05.13)
+                if fobj is None or not (same(it, mem, fobj) or (fobj is f0 and same(it, mem, first))):
                     ok = False; construct = 'first-member-not-selected'
-                    msg = 'a union initializer without designator does not select the first member init->ty->members (init->mem is %s)' % show(mem)
-                elif not (k == 0 or (isinstance(fobj, Obj) and 'idx' in fobj.fields and k == vkey(fobj.fields['idx']))):
+                    msg = 'a union initializer without designator does not select the first (named) member of init->ty->members (init->mem is %s)' % show(mem)
+                elif not ((k == 0 and (fobj is f0 or is_null(fobj))) or (isinstance(fobj, Obj) and 'idx' in fobj.fields and k == vkey(fobj.fields['idx']))):
                     ok = False; construct = 'first-member-child-mismatch'; msg = 'a union initializer without designator parses its value into child %s, not into the child of the first member' % show_key(k)
         rep.ob('R05.10', key + '/' + construct, ok, msg, where=where, facts={'path': ctx.trail})
     if seen != {'designated', 'plain'}:
